@@ -192,7 +192,7 @@ func ArgRole(p *core.Prog, r *core.Report) {
 				if nt := core.NamedOf(f.Signature.Recv().Type()); nt != nil {
 					if st, ok := nt.Underlying().(*types.Struct); ok {
 						for q := 0; q < st.NumFields(); q++ {
-							if isPathName(st.Field(q).Name()) {
+							if isPathName(core.FieldName(st, q)) {
 								hasPathField = true
 							}
 						}
